@@ -37,7 +37,11 @@ def run(sx, topo, order, rots, spec, regrade=False):
     mesh, blocks = g1.build_mesh(cells, order, rots)
     chops = g1.place_chops(sx, blocks, _spec(spec))
     outcome = g1.grade(mesh, len(cells))
-    sx.reach(outcome)
+    sx.reach(outcome if not outcome.startswith("crash") else "crash")
+    if outcome.startswith("crash"):
+        sx.prove(False, "grading a mesh either succeeds or fails with the undefined-/inconsistent-grading error, not with "
+                 + outcome[6:], f"%s:crash:{topo}" % PROPERTY, info={"exception": outcome[6:]})
+        return outcome
     fams = g1.families(blocks)
     fam_of = {d: k for k, f in enumerate(fams) for d in f}
     tag = f"{topo}"
@@ -86,6 +90,18 @@ def _multi(n, multi_block=0):
     return {f"{i},{ax}": ("multi" if i == multi_block else "sym") for i in range(n) for ax in range(3)}
 
 
+def _edge_first_rotations():
+    """corner numberings of the first diag-edge cell whose local corner 0 lies on the edge it shares with the second"""
+    cells = g1.TOPOLOGIES["diag-edge"]
+    second = {tuple(int(round(x)) for x in p) for p in g1.cell_points(cells[1], 0)}
+    out = []
+    for r in range(24):
+        pts = [tuple(int(round(x)) for x in p) for p in g1.cell_points(cells[0], r)]
+        if pts[0] in second and any(pts[k] in second for k in (1, 3, 4)):
+            out.append(r)
+    return out
+
+
 def _axes_sym(n, axes, fixed_block=0):
     """flags symbolic on the listed lattice axes; on the other axes every block gets the same concrete filler chop"""
     sp = {}
@@ -124,6 +140,10 @@ def jobs(tier, seed):
             add("row3", [2, 0, 1], [0, 11, 0], _axes_sym(3, axes), f"|sym-axes={axes}")
             add("L", [0, 1, 2], [0, 0, 0], _axes_sym(3, axes), f"|sym-axes={axes}")
         add("T", [0, 1, 2, 3], [0, 0, 0, 0], _axes_sym(4, [0]), "|sym-axes=[0]")
+        add("T", [0, 2, 1, 3], [0, 0, 0, 0], _axes_sym(4, [1]), "|sym-axes=[1]")
+        # two blocks that touch along one edge only, numbered so that the shared edge starts at local corner 0 of both
+        for r0 in _edge_first_rotations()[::2]:
+            add("diag-edge", [0, 1], [r0, 0], _all_sym(2), "|shared edge is the first wire of its axis in both blocks")
         add("T", [3, 1, 0, 2], [0, 0, 0, 0], _axes_sym(4, [1]), "|sym-axes=[1]")
         add("T", [0, 2, 1, 3], [0, 0, 0, 0], _axes_sym(4, [2]), "|sym-axes=[2]")
         add("row4", [0, 2, 1, 3], [0, 0, 0, 0], _axes_sym(4, [1]), "|sym-axes=[1]")
